@@ -1593,7 +1593,8 @@ def blind_search(seed):
                              f"instance {sp['name']} cannot be built: {e}", dict(spec=sp["name"])))
             continue
         doms = leaf_domains(sp["objects"])
-        for leaf in sorted(k for k, v in base.items() if kind_of(v) == "KLeaf"):
+        for leaf, how in [(k, h) for k in sorted(k for k, v in base.items() if kind_of(v) == "KLeaf")
+                          for h in ("new-tensor", "same-object")]:
             dic = build(sp)
             observe(dic)
             cur = dic[leaf].tensor
@@ -1610,7 +1611,15 @@ def blind_search(seed):
             else:
                 new = cur * 1.3 + 0.05
             try:
-                dic[leaf].tensor = new.clone()
+                if how == "same-object":
+                    # what the operators of the samplers do: edit the held tensor, assign the same object back
+                    held = dic[leaf].tensor
+                    if held.requires_grad or new.shape != held.shape or new.dtype != held.dtype:
+                        continue
+                    held.copy_(new)
+                    dic[leaf].tensor = held
+                else:
+                    dic[leaf].tensor = new.clone()
             except Exception as e:
                 key = f"C11:blind:update-raises:{type(e).__name__}:{sp['name']}"
                 found.setdefault(key, (key, f"{sp['name']}: assigning '{leaf}' raises {type(e).__name__}: {e}",
@@ -1623,9 +1632,9 @@ def blind_search(seed):
                 if k in ref and not same_value(got[k], ref[k], torch):
                     key = f"C11:blind:stale:{type(dic[k]).__name__}"
                     found.setdefault(key, (key, f"{sp['name']}: {k} ({type(dic[k]).__name__}) is stale after "
-                                                f"'{leaf}' was assigned: got {_show(got[k], ref[k])}, freshly built copy "
+                                                f"'{leaf}' was assigned ({how}): got {_show(got[k], ref[k])}, freshly built copy "
                                                 f"{_show(ref[k], got[k])}",
-                                           dict(spec=sp["name"], blind=True, leaf=leaf, value=new.tolist(), observed=k)))
+                                           dict(spec=sp["name"], blind=True, leaf=leaf, how=how, value=new.tolist(), observed=k)))
     return list(found.values())
 
 
